@@ -304,6 +304,28 @@ def _separators(ctx, rule):
     return c07.r1_separator_inclusion(ctx, rule)
 
 
+def r12_control_characters_rejected(ctx, rule):
+    """'lines containing tabs or control characters ... are skipped': the set of characters check_valid rejects (C07's reject-set
+    extraction: constant membership guards, range loops over chr(i), any()/isdisjoint forms) contains every C0 control character
+    U+0000..U+001F (seed C19-cb: range(0x00, 0x1f) lets U+001F through - it reaches Other/1.txt, the grammar and the OMEN tables)."""
+    from . import c07
+    qual = c07.TFI + 'check_valid'
+    fn = ctx.fn(qual)
+    fn._module_tree = ctx.repo.modules[qual.partition('::')[0]].tree
+    rej, unknown = c07.reject_set(fn)
+    need = {chr(i) for i in range(0x20)}
+    missing = sorted(need - rej)
+    facts = {'rejected': sorted('U+%04X' % ord(c) for c in rej if len(c) == 1), 'unrecognised_guards': unknown}
+    if missing and unknown:
+        ctx.unk(rule, qual, 'check_valid has guards that are not understood (%s); cannot tell whether %s are rejected'
+                % (unknown[:3], ['U+%04X' % ord(c) for c in missing][:6]), facts)
+    elif missing:
+        ctx.bad(rule, qual, 'accepts ' + ', '.join('U+%04X' % ord(c) for c in missing[:8]),
+                'a training line that contains a control character is skipped and counted, never trained on', facts, fn, firm=True)
+    else:
+        ctx.ok(rule, qual, 'check_valid rejects all 32 C0 control characters', facts)
+
+
 def r9_side_lists_are_plain(ctx, rule):
     """--prefixcount describes the TRAINING list.  The other list run_trainer reads (the --multiword pre-training words, one
     word per line) is read as plain lines whatever the flag says: read as count-prefixed, every line fails int() and is skipped
@@ -345,10 +367,21 @@ def r9_side_lists_are_plain(ctx, rule):
         ctx.ok(rule, RT, '%d reader(s) over other lists than the training list, all plain (%s left at False)' % (len(side), flag))
 
 
+def _shared_rule(mod, name, **kw):
+    def run(ctx, rule):
+        import importlib
+        return getattr(importlib.import_module('sa.props.' + mod), name)(ctx, rule, **kw)
+    return run
+
+
 def rules(tier):
     return [('C19.R1', r1_three_passes), ('C19.R2', r2_password_count), ('C19.R3', r3_multiplicity_and_r6_strip),
             ('C19.R4', r4_skip_paths), ('C19.R5', r5_reader_encoding_and_eol),
-            ('C19.R6', _validated), ('C19.R7', r7_autodetect), ('C19.R8', _separators), ('C19.R9', r9_side_lists_are_plain)]
+            ('C19.R6', _validated), ('C19.R7', r7_autodetect), ('C19.R8', _separators), ('C19.R9', r9_side_lists_are_plain), ('C19.R12', r12_control_characters_rejected),
+            # --prefixcount / --encoding reach the readers under their own keys
+            ('C19.R10', _shared_rule('plumbing', 'option_round_trip')),
+            # C19-ca: getattr(file_input, 'num_encoding_error', 0): the counter of skipped lines is always recorded as 0
+            ('C19.R11', _shared_rule('plumbing', 'defaulted_getattr'))]
 
 
 META = {
